@@ -10,6 +10,8 @@ WHY_PROPS = {
     "count": {"C01"}, "distinct": {"C01"}, "fresh": {"C01"}, "echo": {"C01"}, "epoch": {"C01", "C03"}, "len": {"C01", "C03"},
     "foreign-scene": {"C04"}, "expired": {"C03"}, "gate": {"C02"}, "optimal": {"C02"}, "constraint": {"C20"},
     "places": {"C03"}, "panic": {"C01", "C02", "C03", "C04", "C05", "C06", "C20"}, "idle": {"C03"}, "wasted": {"C03"}, "stats": {"C03"}, "event": {"C03"},
+    # VisualTrace.tla
+    "appearance": {"C12"}, "fallback": {"C12", "C02"}, "gallery": {"C13"}, "collected": {"C13"}, "gallery-continuity": {"C13", "C04"},
 }
 
 
@@ -109,3 +111,61 @@ def pairing(chk, name, trace_a, trace_b, mode, scene=0):
     chk.cov["transitions"] += r.generated
     chk.cov["traces_validated_against_impl"] += 2
     return ok, rej
+
+
+# ---------------------------------------------------------------------------------------------------------------------
+# free-world VisualSORT runs with appearance features, validated against spec/tracker/VisualTrace.tla (C12, C13)
+def record_visual(chk, name, kind, seed, vis_kind="euclid", vis_thr=None, min_votes=1, min_track_len=2, max_obs=3, own=0.0, min_area=0,
+                  steps=150, shards=2, metric="iou", max_idle=2, objects=5, spread=90, scenes="0,7", extra=()):
+    thr = vis_thr if vis_thr is not None else (2.8 if vis_kind == "euclid" else 0.85)
+    ex = ["--features", "1", "--vis-kind", vis_kind, "--vis-thr", str(thr if vis_kind == "euclid" else round(1.0 - thr, 6)),
+          "--min-votes", str(min_votes), "--min-track-len", str(min_track_len), "--max-obs", str(max_obs), "--min-area", str(min_area),
+          "--q-use", "0.5", "--q-collect", "0.6"]
+    if own > 0:
+        ex += ["--own-use", str(own), "--own-collect", str(own)]
+    # own-area shares are measured on axis-aligned boxes only (rotated sets can hit the known geo panic F10 of C15)
+    return record(chk, name, kind, seed, steps=steps, shards=shards, metric=metric, max_idle=max_idle, objects=objects, spread=spread,
+                  crafted=False, scenes=scenes, rotated=(own == 0), extra=ex + list(extra))
+
+
+def _validate_v(args):
+    i, trace, workdir = args
+    ok, r, rej = vlib.validate_trace(T / "VisualTrace.tla", T / "vtrace.cfg", trace, f"vt-{i}", workdir, timeout=900)
+    stats = [0, 0, 0, 0]
+    try:
+        m = re.search(r"VSTATS <<(\d+), (\d+), (\d+), (\d+)>>", open(r.out).read())
+        if m:
+            stats = [int(x) for x in m.groups()]
+    except OSError:
+        pass
+    return i, ok, r.generated, r.distinct, rej, stats
+
+
+def validate_visual(chk, traces, focus):
+    """One TLC run per recorded visual trace; a rejection is reported for `focus` only if a failed conjunct concerns it.
+    Returns the summed non-vacuity counters [loose, with claims, with a lost claim, fallback next to appearance]."""
+    jobs = [(i, t, chk.workdir) for i, t in enumerate(traces)]
+    tot = [0, 0, 0, 0]
+    with cf.ThreadPoolExecutor(max_workers=6) as ex:
+        for i, ok, gen, dist, rej, stats in ex.map(_validate_v, jobs):
+            chk.cov["states"] += dist
+            chk.cov["transitions"] += gen
+            chk.cov["traces_validated_against_impl"] += 1
+            tot = [a + b for a, b in zip(tot, stats)]
+            if not ok:
+                m = re.search(r'\\"why\\", \{([^}]*)\}', rej)
+                why = set(re.findall(r'\\"([a-z-]+)\\"', m.group(1))) if m else set()
+                props = set().union(*[WHY_PROPS.get(w, set()) for w in why]) if why else {"C01", "C02", "C03", "C04", "C12", "C13", "C20"}
+                if focus in props or not why:
+                    chk.violation(f"r2v:rejected:{'+'.join(sorted(why)) or 'unknown'}",
+                                  {"engine": "r2v-trace", "trace": str(traces[i]), "rejected": rej[:3000]})
+                else:
+                    chk.cov.setdefault("rejections_outside_focus", 0)
+                    chk.cov["rejections_outside_focus"] += 1
+    return tot
+
+
+def replay_visual_trace(pid, payload):
+    ok, r, rej = vlib.validate_trace(T / "VisualTrace.tla", T / "vtrace.cfg", payload["trace"], "replay", vlib.WORK / pid)
+    print("accepted" if ok else f"VIOLATION property={pid} replay=  # {rej[:300]}")
+    return 0 if ok else 1
